@@ -3,19 +3,22 @@ from vf.props import common as C
 
 
 def plan(tier):
-    roles = ("charging", "charging-full", "queueing", "idle", "arriving", "queueing-nearly-full")
-    conds = [Cond("vf.h.h_queue", "h_fifo", case=r, timeout=900, env={"VF_ORACLE": "C18"}, label=f"H18-fifo[v0 {roles[r]}]", weight=30) for r in range(6)]
+    roles = ("charging", "charging-full", "queueing", "idle", "arriving", "queueing-nearly-full", "queueing-empty-battery", "queueing-fleet-f1")
+    env = {"VF_ORACLE": "C18"}
+    if tier == "quick":
+        env["VF_ROLESET"] = "1,2,5,6,7"  # v1 / v10: a vehicle that frees its plug this step, and the four kinds of queue member
+    conds = [Cond("vf.h.h_queue", "h_fifo", case=r, timeout=1800, env=dict(env), label=f"H18-fifo[v0 {roles[r]}]", weight=30) for r in range(8)]
     conds.append(Cond("vf.h.h_queue", "h_fifo_reach", case=1, timeout=100, expect="refute", env={"VF_ORACLE": "C18"}, label="H18-reach"))
     if tier == "thorough":
-        conds += [Cond("vf.h.h_queue", "h_fifo", case=r, timeout=900, env={"VF_ORACLE": "C02"}, label=f"H18-counters[v0 {roles[r]}]", weight=30) for r in range(6)]
+        conds += [Cond("vf.h.h_queue", "h_fifo", case=r, timeout=1800, env={"VF_ORACLE": "C02"}, label=f"H18-counters[v0 {roles[r]}]", weight=30) for r in range(8)]
     return {
         "conds": conds,
         "min_classes": 40,
         "explanation": "C18: real perform_vehicle_state_updates with three modelled vehicles on LEVEL_2@s0, each in a symbolic role (charging, charging+full, queueing with "
-                       "symbolic enqueue time, idle, arriving), symbolic installed plugs and ghost chargers/queue members: no modelled vehicle leaves the queue to charge while a "
+                       "symbolic enqueue time -- also with a battery inside the 'full' tolerance, with a battery drained to exactly 0 kWh, or belonging to fleet f1 at the public station --, idle, arriving), symbolic installed plugs and ghost chargers/queue members: no modelled vehicle leaves the queue to charge while a "
                        "modelled vehicle that joined strictly earlier (ties: smaller id; ids v0 < v1 < v10 lexicographically) still queues, whatever order SimulationState.vehicles yields its values in (solver-chosen permutation); counters stay exact.",
         "entry_points": ["step_simulation_ops.perform_vehicle_state_updates", "_sort_by_vehicle_state", "ChargeQueueing.update", "ChargingStation.update", "DispatchStation.update"],
-        "bounds": ["3 modelled vehicles, 6 roles each; enqueue times in [0, 1e5] s (spans a midnight); plugs/ghosts unbounded; dt = 60 s"],
+        "bounds": ["3 modelled vehicles: v0 in each of 8 roles, v1 / v10 in 5 roles (quick: leaving charger + 4 queue roles) or all 8 (thorough); enqueue times in [0, 1e5] s (spans a midnight); plugs/ghosts unbounded; dt = 60 s"],
         "outside": ["ghost queue members are not observed by the oracle", "controllers that explicitly instruct a queued vehicle to charge"],
         "stubs": C.STUBS_COMMON + C.STUBS_UPD[1:],
         "assumptions": ["pre-state satisfies the counter invariant"],
